@@ -22,6 +22,7 @@ import   "fmt"
 import   "math"
 
 import . "github.com/pbenner/autodiff"
+import   "github.com/pbenner/autodiff/verifhook"
 import   "github.com/pbenner/autodiff/algorithm/householderBidiagonalization"
 import   "github.com/pbenner/autodiff/algorithm/givensRotation"
 
@@ -209,6 +210,7 @@ func golubKahanSVD(inSitu *InSitu, epsilon float64) (Matrix, Matrix, Matrix, err
   B := H.Slice(0,n,0,n)
 
   for p, q := 0, 0; q < n; {
+    verifhook.Tick("svd.golubKahan")
 
     for i := 0; i < n-1; i++ {
       b11 := B.At(i  ,i  ).GetFloat64()
